@@ -34,7 +34,7 @@ TRUSTED = [
 ASSUMPTIONS = ['multipart: the delimiter "--boundary" does not occur in a part (the property\'s own proviso); Multipart.decode of data without any delimiter raises IndexError, not DecodeError (malformed input, outside the property; the model reproduces it)']
 RULE = ('octet strings: every single octet value, all-equal and incompressible blocks, lengths around 0/1/4095/4096/4097/8192/10000, as bytes, list of pieces, generator, BytesIO; gzip and deflate through Body.compress/decompress, through composer + state machine (Content-Length and chunked), and coded messages from an independent sender (hand-written RFC 1952 members, one or several, optional header fields; zlib streams at all levels/window sizes); '
 	'multipart: 0-4 parts with header sets and binary contents, boundaries over the valid alphabet incl. dashes, contents that contain near-misses of the delimiter; mutated multipart data for the decoder; text/plain over UTF-8 / ISO-8859-1 / ASCII incl. unencodable text; JSON values incl. non-ASCII and nested; form data (pairs over letters, "+", space, "&", "=", "%", ";" and non-ASCII text, code points >= U+0010 - below that is C13\'s F1) through the codec and through Body.encode/decode; '
-	'message/http for simple requests and responses; non-trivial = a successful round trip; distinct by encoded octets')
+	'message/http for simple requests and responses with 0-3 header fields and bodies of random octets or of line breaks, empty lines and header-like lines; non-trivial = a successful round trip; distinct by encoded octets')
 
 
 def _fix_gzip_time():
@@ -631,7 +631,11 @@ def http_roundtrip(seed, case):
 		m.protocol = rng.choice(((1, 1), (1, 0)))
 	for _ in range(rng.randrange(4)):
 		m.headers[rng.choice(('X-A', 'Accept', 'Server', 'Content-Language'))] = rng.choice(('v', 'text/html', 'a, b', 'x y'))
-	m.body = bytes(rng.randrange(256) for _ in range(rng.choice((0, 1, 20))))
+	if rng.random() < 0.5:
+		m.body = bytes(rng.randrange(256) for _ in range(rng.choice((0, 1, 20))))
+	else:
+		# bodies made of the octets that delimit the parts of a message: empty lines, a leading line break, header-like lines
+		m.body = b''.join(rng.choice((b'\r\n', b'\r\n\r\n', b'\n', b'\r', b'a', b'X-A: v', b'GET / HTTP/1.1', b' ', b'\r\n \r\n')) for _ in range(rng.randrange(1, 7)))
 	try:
 		enc = HTTP.encode(m)
 		back = HTTP.decode(enc)
